@@ -155,4 +155,14 @@ pub open spec fn cur_line(labels: Map<String, usize>, repl: bool, start: usize, 
     if tr.len() == 0 { start } else { next_of(tr.last(), labels, repl)->To_0 }
 }
 pub open spec fn cur_vars(v_init: Map<String, String>, tr: Seq<Step>) -> Map<String, String> { if tr.len() == 0 { v_init } else { v_after(tr.last()) } }
+/// the environment (writers + halt flag) after the runner reacted to the result
+pub open spec fn e_after(st: Step) -> Env { if st.res is Error { st.e2 } else { st.e1 } }
+/// C13 (which flag is polled): the environment handed to the first instruction is the one the run was given, and each
+/// later instruction gets the environment the previous one left - so the flag read before every instruction
+/// (step_ok: !e0.halt_now()) is the flag of THAT environment
+#[verifier::opaque]
+pub open spec fn env_threaded(e_init: Env, tr: Seq<Step>) -> bool {
+    forall|i: int| 0 <= i < tr.len() ==> (#[trigger] tr[i]).e0 == (if i == 0 { e_init } else { e_after(tr[i - 1]) })
+}
+pub open spec fn cur_env(e_init: Env, tr: Seq<Step>) -> Env { if tr.len() == 0 { e_init } else { e_after(tr.last()) } }
 } // mod rspec
